@@ -239,6 +239,12 @@ func abstractions(name string) []abstraction {
 				func(c cty.Value) bool { return !c.IsNull() && c.GreaterThan(orig.Subtract(cty.NumberIntVal(1))).True() }},
 			abstraction{"unknown number < " + vfmt.V(orig) + "+1, > -100", cty.UnknownVal(ty).Refine().NotNull().NumberRangeUpperBound(orig.Add(cty.NumberIntVal(1)), false).NumberRangeLowerBound(cty.NumberIntVal(-100), false).NewValue(),
 				func(c cty.Value) bool { return !c.IsNull() && c.LessThan(orig.Add(cty.NumberIntVal(1))).True() }},
+			// an inclusive upper bound that the pool value itself attains, no lower bound
+			abstraction{"unknown number <= " + vfmt.V(orig), cty.UnknownVal(ty).Refine().NotNull().NumberRangeUpperBound(orig, true).NewValue(),
+				func(c cty.Value) bool { return !c.IsNull() && numLE(c, orig) }},
+			// both bounds, attained below and not above
+			abstraction{"unknown number >= " + vfmt.V(orig) + ", < " + vfmt.V(orig) + "+2", cty.UnknownVal(ty).Refine().NotNull().NumberRangeLowerBound(orig, true).NumberRangeUpperBound(orig.Add(cty.NumberIntVal(2)), false).NewValue(),
+				func(c cty.Value) bool { return !c.IsNull() && numLE(orig, c) && c.LessThan(orig.Add(cty.NumberIntVal(2))).True() }},
 		)
 	}
 	// part of the value unknown: the first element / the attribute "a" (the rest stays known)
